@@ -438,33 +438,44 @@ def check_rejections(ctx, inner):
                                 sub.target, ast.Subscript) and isinstance(
                                     sub.target.value, ast.Name):
                         census.add(sub.target.value.id)
-    for n_ in cfg.nodes:
-        if n_.kind == 'if' and n_.id in rd.live and census:
-            t_ = n_.ast.test
-            if isinstance(t_, ast.Compare) and len(t_.ops) == 1 \
-                    and isinstance(t_.ops[0], ast.Gt) and isinstance(
-                        t_.left, ast.Subscript) and isinstance(
-                            t_.left.value, ast.Name) \
-                    and t_.left.value.id in census and isinstance(
-                        t_.comparators[0], ast.Constant) \
-                    and t_.comparators[0].value == 1:
-                for (tt, lab) in cfg.succ[n_.id]:
-                    if lab == 'true':
-                        reach = cfg.reachable(tt)
-                        raises = [r for r in cfg.nodes if r.kind == 'raise'
-                                  and r.id in reach]
-                        # the raise must not be reachable when no count
-                        # exceeds 1: it sits under a test of the message
-                        # the true branch extends
-                        grown_stmts = [
-                            s_ for s_ in ast.walk(n_.ast)
-                            if isinstance(s_, ast.AugAssign)
-                            and isinstance(s_.target, ast.Name)]
-                        for r in raises:
-                            for g in grown_stmts:
-                                if _derives_from_def(rd, r, g.target.id,
-                                                     g):
-                                    found = True
+    from ..core.guards import facts_at
+
+    def census_exceeds_one(test, truth):
+        """the fact says: a count of the census is greater than one"""
+        if not (isinstance(test, ast.Compare) and len(test.ops) == 1):
+            return False
+        l, r, op = test.left, test.comparators[0], test.ops[0]
+
+        def is_count(x):
+            return isinstance(x, ast.Subscript) and isinstance(
+                x.value, ast.Name) and x.value.id in census
+
+        def is_const(x, v):
+            return isinstance(x, ast.Constant) and x.value == v
+        if is_count(l) and is_const(r, 1):
+            return (isinstance(op, ast.Gt) and truth) or (
+                isinstance(op, ast.LtE) and not truth)
+        if is_count(r) and is_const(l, 1):
+            return (isinstance(op, ast.Lt) and truth) or (
+                isinstance(op, ast.GtE) and not truth)
+        if is_count(l) and is_const(r, 2):
+            return (isinstance(op, ast.GtE) and truth) or (
+                isinstance(op, ast.Lt) and not truth)
+        return False
+
+    for g_ in cfg.nodes:
+        if not (census and g_.id in rd.live and isinstance(
+                g_.ast, ast.AugAssign) and isinstance(
+                    g_.ast.target, ast.Name)):
+            continue
+        if not any(census_exceeds_one(t_, tr_)
+                   for (_n, t_, tr_) in facts_at(cfg, rd, g_.id)):
+            continue
+        reach = cfg.reachable(g_.id)
+        for r in cfg.nodes:
+            if r.kind == 'raise' and r.id in reach \
+                    and _derives_from_def(rd, r, g_.ast.target.id, g_.ast):
+                found = True
     ctx.ob(rule, '_validate_h5ad:duplicate-cell-ids', inner.loc(), found,
            'repeated cell ids end in a raise whose message is built from '
            'the obs index census' if found else
